@@ -10,7 +10,7 @@
 From Coq Require Import List Bool Arith NArith ZArith QArith Lia.
 From DV Require Import Common.Res Common.Str Common.Jv.
 From DV Require Import Ext.Types Ext.Classes Ext.Seq Ext.Model Ext.Spec.
-From DV Require Import Link.Abs Link.ProofsOps Link.ProofsTop Link.Examples.
+From DV Require Import Link.Abs Link.ProofsOps Link.ProofsTop Link.ProofsTok Link.Examples.
 Import ListNotations.
 Local Open Scope nat_scope.
 
@@ -84,3 +84,19 @@ Proof.
   split; [apply lx5_ok|]. split; [vm_compute; reflexivity|]. split; [vm_compute; reflexivity|].
   split; [apply lx_aff_rt|]. vm_compute. repeat split; reflexivity.
 Qed.
+
+(** the executable rendering of affine entries, [qtok_dec] (exact decimal expansion: sign, integer part, '.', at least one
+    digit), yields a float lexeme of the JSON grammar for EVERY rational: with [qtok := qtok_dec] the hypothesis
+    [aff_toks_ok] of the theorems above holds for every header *)
+Theorem C09_qtok_dec_float :
+  (forall q : Q, JM.float_tok (qtok_dec q) = true) /\ (forall h : hdr, aff_toks_ok qtok_dec h = true).
+Proof. exact (conj qtok_dec_float_tok aff_toks_ok_dec). Qed.
+
+Example C09_qtok_dec_float_nonvacuous :
+  map qtok_dec [0; 1 # 2; -8; 21 # 2; 1 # 1024; -3 # 4]%Q =
+  [[48; 46; 48]; [48; 46; 53]; [45; 56; 46; 48]; [49; 48; 46; 53];
+   [48; 46; 48; 48; 48; 57; 55; 54; 53; 54; 50; 53]; [45; 48; 46; 55; 53]]%N /\
+  map tokq_dec (map qtok_dec [0; 1 # 2; -8; 21 # 2; 1 # 1024; -3 # 4]%Q) =
+  [Some 0; Some (1 # 2); Some (-8 # 1); Some (21 # 2); Some (1 # 1024); Some (-3 # 4)]%Q /\
+  JM.float_tok [49; 48]%N = false.
+Proof. repeat split; vm_compute; reflexivity. Qed.
